@@ -92,19 +92,23 @@ pub fn generate(seed: u64, thorough: bool) -> Tree {
     let double_md = swarm.chance(1, 12);
     let dirs: Vec<&str> = if swarm.chance(1, 3) { vec![""] } else { vec!["", "", "sub", "sub/deep", "with space", "dötted", ".hidden", "x.md"] };
     let plain = ["a", "b", "c", "d", "e", "f", "g", "h", "i", "j", "k", "l", "m", "n", "o"];
-    let odd = ["note one", "ünï", "c.d", "2024-01-01", "UPPER", "日本", "a b c", "x.y.z", "-dash", "q"];
+    let long_name: String = format!("L{}", "x".repeat(swarm.range(243, 251))); // + ".md" = 247..255 bytes
+    let odd: Vec<&str> = vec![
+        "note one", "ünï", "c.d", "2024-01-01", "UPPER", "日本", "a b c", "x.y.z", "-dash", "q", "release%20notes", "100%", "a&b", "x=y", "semi;colon", "(paren)", "[brk]", "comma,s",
+        "q'uote", "#hash", "what?", "plus+plus", "tilde~", "at@home", "dollar$", "caret^", "back`tick", "excl!", "percent%41", long_name.as_str(),
+    ];
     let mut keys: Vec<String> = vec![];
     let mut guard = 0;
     while keys.len() < n_notes && guard < 200 {
         guard += 1;
         let d = *work.pick(&dirs);
-        let n = if odd_names && work.chance(1, 2) { *work.pick(&odd) } else { *work.pick(&plain) };
+        let n: &str = if odd_names && work.chance(1, 2) { *work.pick(&odd[..]) } else { *work.pick(&plain[..]) };
         let k = if d.is_empty() { n.to_string() } else { format!("{}/{}", d, n) };
         if !keys.contains(&k) {
             keys.push(k);
         }
     }
-    if double_md {
+    if double_md && keys[0].rsplit('/').next().map(|n| n.len()).unwrap_or(0) < 200 {
         let base = keys[0].clone();
         let k = format!("{}.md", base);
         if !keys.contains(&k) {
@@ -141,6 +145,8 @@ pub fn generate(seed: u64, thorough: bool) -> Tree {
         ("bad-utf8.md", vec![b'#', b' ', 0xff, 0xfe, b'\n']),
         ("a.md.tmp", b"someone else's temp file\n".to_vec()),
         ("a.md.bak", b"backup\n".to_vec()),
+        (".iwe-0.tmp", b"not ours\n".to_vec()),
+        ("sub/.iwe-0.tmp", b"not ours either\n".to_vec()),
     ];
     for (name, bytes) in extras {
         if work.chance(1, 4) {
@@ -384,6 +390,8 @@ pub struct Judge<'a> {
     pub must_succeed: bool,
     pub exit_code: i32,
     pub killed: bool,
+    /// paths whose unlink was made to fail by the plan
+    pub unlink_failed: &'a [String],
 }
 
 fn is_temp_like(rel: &str) -> bool {
@@ -470,7 +478,7 @@ pub fn judge(j: &Judge) -> Vec<Violation> {
         } else if is_note_path(rel) {
             v.push(mk("new-note-file", rel, format!("{} did not exist before the run", rel)));
         } else if is_temp_like(rel) {
-            if !j.killed {
+            if !j.killed && !j.unlink_failed.iter().any(|p| p == rel) {
                 v.push(mk("leftover-file", rel, format!("{} was created and left behind although the process was not killed (exit {})", rel, j.exit_code)));
             }
         }
